@@ -89,6 +89,7 @@ try:
         ):
             super(_FeatureProcessorDataset, self).__init__()
             self.utt_path = tuple(utt2path.items())
+            self.seed_offsets = tuple(range(len(self.utt_path)))
             self.preprocessors = preprocessors
             self.computer = computer
             self.postprocessors = postprocessors
@@ -101,7 +102,9 @@ try:
 
         @torch.no_grad()
         def __getitem__(self, idx):
-            torch.manual_seed(self.seed + idx)
+            # seed with the utterance's position in the map file rather than in the
+            # (possibly manifest-filtered) list so that resuming does not change it
+            torch.manual_seed(self.seed + self.seed_offsets[idx])
             utt_id, path = self.utt_path[idx]
             try:
                 signal = read_signal(
@@ -537,6 +540,7 @@ def signals_to_torch_feat_dir(args=None):
             )
             return 1
         utt2path[utt_id] = " ".join(ls[1:])
+    utt2offset = dict((utt_id, idx) for (idx, utt_id) in enumerate(utt2path))
     if options.manifest is not None:
         options.manifest.seek(0)
         for line in options.manifest:
@@ -591,6 +595,7 @@ def signals_to_torch_feat_dir(args=None):
         options.force_as,
         seed,
     )
+    dataset.seed_offsets = tuple(utt2offset[utt_id] for utt_id in utt2path)
     loader = torch.utils.data.DataLoader(dataset, num_workers=options.num_workers)
     if not os.path.isdir(options.dir):
         os.makedirs(options.dir)
